@@ -28,6 +28,11 @@ RECORDS = [
 # same type name as RECORDS' descriptor but other fields (descriptor-keyed caches must not confuse the two)
 SAME_NAME_OTHER_FIELDS = rs("sel/rec", [["string", "extra"], ["varint", "n"], ["uri", "link"], ["string", "s"]], ["'ab'", "3", "'http://x/a.txt'", "'zz'"])
 
+# same type name AND field names, other field types (what plain JSON lines {"n": 1} / {"n": "a"} become): caches keyed on names only
+SAME_NAMES_OTHER_TYPES = rs("sel/rec", [["string", "n"], ["varint", "m"], ["varint", "s"], ["string", "t"], ["string", "f"], ["varint", "b"], ["string[]", "l"],
+                                        ["string", "p"], ["string", "ip"], ["string", "nw"], ["string", "u"], ["string", "none"], ["record", "sub"]],
+                            ["'a'", "3", "1", "'ab'", "'a'", "1", "['a','b']", "'a'", "'a'", "'ab'", "'a'", "None", None])
+
 INT = ["r.n", "r.m", "0", "1", "3", "10"]
 FLT = ["r.f", "1.5"]
 STR = ["r.s", "r.t", "'a'", "'A'", "'ab'", "''"]
